@@ -64,6 +64,12 @@ def check_schema(out, n, names, df, const_cols, what):
     for j in const_cols:
         c = float(df.iloc[0, j])
         require(np.all(X[:, j] == c), '%s: constant training column %r (value %r) sampled as %r' % (what, names[j], c, X[:3, j]), tag='constant')
+        if df.iloc[:, j].dtype.kind in 'iu':
+            # "reproduced exactly": an integer constant (an id, a nanosecond timestamp) beyond 2**53 does not survive float64
+            want = int(df.iloc[0, j])
+            got = [int(v) if float(v) == int(float(v)) else v for v in out.iloc[:, j].tolist()]
+            require(all(g == want for g in got), '%s: constant integer training column %r (value %d) sampled as %r' % (what, names[j], want, got[:3]),
+                    tag='constant')
     return X
 
 
@@ -75,6 +81,11 @@ def oracle(case):
     model = M.build_gaussian(case['config'], names, random_state=seed)
     value(model.fit, df.copy(), what='fit')
     const_cols = [j for j in range(d) if df.iloc[:, j].nunique() == 1]
+    if const_cols and case['seed'] % 2 == 0:
+        # the constant column as 64-bit integers too large for float64 (before the fit)
+        df[names[const_cols[0]]] = np.full(len(df), 1700000000123456789 + case['seed'] % 1000, dtype='int64')
+        model = M.build_gaussian(case['config'], names, random_state=seed)
+        value(model.fit, df.copy(), what='fit')
     ns = case['n_small']
     check_schema(value(model.sample, ns, what='sample(%d)' % ns), ns, names, df, const_cols, 'sample(%d)' % ns)
     n = case['n_big']
